@@ -7,6 +7,7 @@ TODO: Handle sys.argv
 
 import sys
 import io
+import time
 import types
 from itertools import zip_longest
 from unittest.mock import patch
@@ -661,10 +662,13 @@ class Sandbox:
         else:
             self._current_stdout.append(PrintingStringIO())
         # And do the patches
+        # The targets are given as objects: looking 'time' up by name would go
+        # through the module table that is being replaced here, where the
+        # instructor may have blocked or mocked that very module
         self._start_patches(
             patch.dict('sys.modules', overridden_modules),
-            patch('sys.stdout', self._current_stdout[-1]),
-            patch('time.sleep', return_value=None),
+            patch.object(sys, 'stdout', self._current_stdout[-1]),
+            patch.object(time, 'sleep', return_value=None),
         )
 
     def _stop_mocking(self, context: SandboxContext):
